@@ -137,6 +137,16 @@ def known_open(prop):
     return {f['key']: f for f in load_known() if f['property'] == prop and f.get('status') == 'open'}
 
 
+def known_inputs(prop):
+    """point id -> listed site, for the closed-space checks (committed, never written at run time)"""
+    import gzip
+    p = os.path.join(VERIF, 'known_inputs', prop + '.json.gz')
+    if not os.path.exists(p):
+        return {}
+    with gzip.open(p, 'rt') as f:
+        return json.load(f)
+
+
 # ---- reporting --------------------------------------------------------------
 def run_dir(tag):
     """A private scratch directory whose *path* is the same from one invocation to the next (slot 00 unless another
